@@ -522,26 +522,50 @@ def _replay_abstract(c: Contract, vals: dict[str, Any], ev: Any) -> dict[str, An
     values clamped into that calendar's valid range."""
     gens = dict(c.ghosts + c.args + c.kwargs)
     cal_names = [n for n, g in gens.items() if hasattr(g, "realize") and hasattr(vals.get(n), "register")]
-    if not all(hasattr(g, "realize") or not isinstance(vals.get(n), SObj) for n, g in gens.items()):
+    if not all(hasattr(g, "realize") or not isinstance(vals.get(n), SObj) or hasattr(vals.get(n), "register") for n, g in gens.items()):
         return {"confirmed": False, "note": "inputs are abstract (symbolic calendar) and have no concrete realisation"}
     tried = 0
     first_ord = {n: ev(vals[n].ordinal) for n in cal_names}
     candidates = [dict(first_ord)] + [{n: o for n in cal_names} for o in range(19)]
-    for over in candidates:
-        ctx: dict[str, Any] = {"ordinal_override": over}
+    if any(type(g).__name__ == "IsoAbsCalG" for g in gens.values()):
+        candidates = [{n: 0 for n in cal_names}]
+    import random as _random
+
+    from .contracts import Int as _IntGen
+
+    rng = _random.Random(12345)
+
+    def rand_ev(x: Any) -> Any:
+        if isinstance(x, SInt):
+            return rng.choice([rng.randint(1, 31), rng.randint(-50, 3000), rng.randint(1, 13), rng.randint(1800, 2100)])
+        if isinstance(x, SBool):
+            return rng.random() < 0.5
+        return x
+
+    attempts: list[tuple[dict, Any, bool]] = [(over, ev, False) for over in candidates]
+    for _ in range(120):
+        attempts.append((rng.choice(candidates), rand_ev, True))
+    for over, use_ev, randomised in attempts:
+        ctx: dict[str, Any] = {"ordinal_override": dict(over)}
         try:
             cvals: dict[str, Any] = {}
             for n, g in c.ghosts + c.args + c.kwargs:
                 if hasattr(g, "realize"):
-                    cvals[n] = g.realize(vals[n], ev, ctx)
+                    cvals[n] = g.realize(vals[n], use_ev, ctx)
+                elif randomised and isinstance(g, _IntGen):
+                    lo_ = g.lo if isinstance(g.lo, int) else -50
+                    hi_ = g.hi if isinstance(g.hi, int) else 3000
+                    cvals[n] = rng.randint(max(lo_, -10000), min(hi_, 10000)) if lo_ <= hi_ else use_ev(vals[n])
                 else:
-                    cvals[n] = concretize(vals[n], ev, live=True)
+                    cvals[n] = concretize(vals[n], use_ev, live=True)
             cvals = _enumify(c, cvals)
             tried += 1
             kind, value = call_real(c, cvals)
             ok, why = eval_cases_concrete(c, NS(cvals), kind, value)
+            if why.startswith("precondition not satisfied") or why.startswith("contract evaluation error"):
+                continue
             if not ok:
-                return {"confirmed": True, "observed": f"{kind}: {_short(value)}", "why": why, "realised_inputs": {k: _short(v) for k, v in cvals.items()}, "calendar_ordinals": over}
+                return {"confirmed": True, "observed": f"{kind}: {_short(value)}", "why": why, "realised_inputs": {k: _short(v) for k, v in cvals.items()}, "calendar_ordinals": over, "found_by": "random search around the abstract counterexample" if randomised else "the solver's model"}
         except Exception:  # noqa: BLE001
             continue
     return {"confirmed": False, "note": f"symbolic-calendar counterexample did not reproduce on {tried} real calendars with the model's field values"}
